@@ -171,6 +171,8 @@ import BGV
 -- C14
 #print axioms BGV.C14_layout
 #print axioms BGV.C14_roundtrip_records
+#print axioms BGV.C14_dir_roundtrip
+#print axioms BGV.C14_und_roundtrip
 
 -- C15
 #print axioms BGV.C15_truncated_records
